@@ -207,7 +207,7 @@ func (comp) Gen(r *kit.Rng, maxLen int, tier string) kit.Case {
 				stressed = true
 				g, rounds := 2+r.Intn(3), 2+r.Intn(3)
 				if tier == "thorough" {
-					g, rounds = 4+r.Intn(13), 5+r.Intn(16)
+					g, rounds = 4+r.Intn(9), 4+r.Intn(9)
 				}
 				ops = append(ops, fmt.Sprintf("stress %d %d %d", g, rounds, r.Intn(2)))
 				curC = "?" // the harness reports which content the stress ended on
@@ -240,6 +240,8 @@ type runner struct {
 	stressMu sync.Mutex
 	perHash  []map[string]int // per listener: notifications per config hash (stress only)
 	nonce    int
+	curC     string // tokens last written (for the verdict cache only)
+	curR     string
 }
 
 var caseSeq int64
@@ -295,16 +297,25 @@ func errClass(err error) string {
 	return "fail"
 }
 
-// what a real startup says about the files as they are now
+// what a real startup says about the files as they are now (NewConfig is a function of the bytes
+// on disk and the options, so the verdict is remembered per content pair within a run)
+var verdictCache = map[string]string{}
+
 func (r *runner) startupVerdict() string {
+	key := r.dep + "|" + r.ver + "|" + r.curC + "|" + r.curR
+	if v, ok := verdictCache[key]; ok && r.curC != "" && r.curR != "" {
+		return v
+	}
 	c, err := r.newConfig()
+	v := "ok"
 	switch {
 	case c == nil:
-		return "fail"
+		v = "fail"
 	case err != nil:
-		return "warn"
+		v = "warn"
 	}
-	return "ok"
+	verdictCache[key] = v
+	return v
 }
 
 func (r *runner) tok(h string) string {
@@ -355,10 +366,12 @@ func (r *runner) Do(op []string) (string, bool) {
 	case "wc":
 		b, ok := cfgBytes(op[1], r.dep)
 		r.write(r.cpath, b, ok, op[1])
+		r.curC = op[1]
 		return "", false
 	case "wr":
 		b, ok := rulesBytes(op[1])
 		r.write(r.rpath, b, ok, op[1])
+		r.curR = op[1]
 		return "", false
 	case "start":
 		if r.cfg != nil {
@@ -504,6 +517,7 @@ func (r *runner) stress(g, rounds, mode int) string {
 		}
 		r.stressMu.Unlock()
 		last, disk = r.tok(ch), final
+		r.curC = final
 	}
 	_, rh := r.cfg.GetHashes()
 	ns := "-"
